@@ -214,7 +214,7 @@ func (batch *Batch) ReadMessage() (Message, error) {
 	)
 	// A batch may start before the requested offset so skip messages
 	// until the requested offset is reached.
-	for batch.conn != nil && offset < batch.conn.offset {
+	for batch.conn != nil && offset < batch.connOffset() {
 		if err != nil {
 			break
 		}
@@ -239,6 +239,15 @@ func (batch *Batch) ReadMessage() (Message, error) {
 	msg.Headers = headers
 
 	return msg, err
+}
+
+// connOffset returns the current offset of the connection the batch was read
+// from; Conn.Seek may change it concurrently, under the connection's mutex.
+func (batch *Batch) connOffset() int64 {
+	batch.conn.mutex.Lock()
+	offset := batch.conn.offset
+	batch.conn.mutex.Unlock()
+	return offset
 }
 
 func (batch *Batch) readMessage(
